@@ -35,7 +35,7 @@ def gen(tier: str, seed: int) -> list[Case]:
     cfg.reexport_forms = tuple(f for f in cfg.reexport_forms if f"reexport-moves-module:{f.split('-')[0]}" not in gated)
     cfg.p_reexport = 0.5
     allowed = {c for c in REF_CATEGORIES if f"ref:{c}" not in gated}
-    n = 24 if tier == "quick" else 400
+    n = 24 if tier == "quick" else 1600
     cases = []
     for i in range(n):
         pkg = pg.random_pkg(rng, cfg)
